@@ -194,7 +194,7 @@ Proof.
         (match pt_lookup p (expected_n g0) with
          | None => sub <- patch_obj (r1 :: rest') [] x ;; Ok (pt_set (expected_n g0) p (PNode sub))
          | Some (PNode ms) => sub <- patch_obj (r1 :: rest') ms x ;; Ok (pt_set (expected_n g0) p (PNode sub))
-         | Some (PLeaf _) => Err EUnsupported
+         | Some (PLeaf d) => d' <- patch_value (r1 :: rest') d x ;; Ok (pt_set (expected_n g0) p (PLeaf d'))
          end).
       unfold expected_n at 1. rewrite pt_lookup_map.
       destruct (pmem p (first_keys g0)) eqn:Hm.
@@ -450,7 +450,6 @@ Qed.
 
 (* ---- keys-only selections --------------------------------------------------------- *)
 
-Definition all_keys (l : loc) : bool := forallb (fun p => match p with PKey _ => true | PIdx _ => false end) l.
 
 Lemma fda_keys a : forall b, all_keys a = true -> first_diff_ascending a b = true.
 Proof.
@@ -474,18 +473,484 @@ Proof.
   specialize (Hk l Hin). destruct l; [discriminate|reflexivity].
 Qed.
 
-Theorem relative_nested :
+(* ---------------------------------------------------------------------- *)
+(* Any order: a descendant selected after its ancestor walks into the copied value and assigns
+   the same value there (model/Project.v [patch_value]).  The domain: whenever one selection is
+   a prefix of another, the remainder consists of member names only. *)
+
+Definition NK (ls : list loc) : Prop :=
+  forall a b t, In a ls -> In b ls -> rem_prefix a b = Some t -> all_keys t = true.
+
+Lemma nested_keys_NK ls : nested_keys ls = true <-> NK ls.
+Proof.
+  unfold nested_keys, NK. rewrite forallb_forall. split.
+  - intros H a b t Ha Hb Hr. specialize (H a Ha). rewrite forallb_forall in H. specialize (H b Hb).
+    rewrite Hr in H. exact H.
+  - intros H a Ha. apply forallb_forall. intros b Hb. destruct (rem_prefix a b) as [t|] eqn:E; [|reflexivity].
+    exact (H a b t Ha Hb E).
+Qed.
+
+Lemma rem_prefix_cons p a b : rem_prefix (p :: a) (p :: b) = rem_prefix a b.
+Proof. cbn. rewrite part_eqb_refl. reflexivity. Qed.
+
+Lemma rem_prefix_app pre a b : rem_prefix (pre ++ a) (pre ++ b) = rem_prefix a b.
+Proof. induction pre as [|p pre IH]; [reflexivity|]. cbn [app]. rewrite rem_prefix_cons. exact IH. Qed.
+
+Lemma rem_prefix_eq a : forall b t, rem_prefix a b = Some t -> b = a ++ t.
+Proof.
+  induction a as [|x a IH]; intros b t H; cbn in H; [injection H as ->; reflexivity|].
+  destruct b as [|y b]; [discriminate|]. destruct (part_eqb x y) eqn:E; [|discriminate].
+  apply part_eqb_spec in E. subst y. cbn. f_equal. auto.
+Qed.
+
+Lemma NK_incl ls ls' : (forall x, In x ls' -> In x ls) -> NK ls -> NK ls'.
+Proof. intros Hi H a b t Ha Hb. apply H; auto. Qed.
+
+Lemma NK_tails p ls : NK ls -> NK (tails_under p ls).
+Proof.
+  intros H a b t Ha Hb Hr. apply in_tails_under in Ha, Hb. apply (H (p :: a) (p :: b) t Ha Hb).
+  rewrite rem_prefix_cons. exact Hr.
+Qed.
+
+Lemma NK_prefix pre ls : NK ls -> NK (map (fun l => pre ++ l) ls).
+Proof.
+  intros H a b t Ha Hb Hr. apply in_map_iff in Ha as [a' [<- Ha]]. apply in_map_iff in Hb as [b' [<- Hb]].
+  rewrite rem_prefix_app in Hr. exact (H a' b' t Ha Hb Hr).
+Qed.
+
+Lemma keys_only_NK ls : keys_only ls = true -> NK ls.
+Proof.
+  intros Hk a b t Ha Hb Hr. unfold keys_only in Hk. rewrite forallb_forall in Hk. specialize (Hk b Hb).
+  apply rem_prefix_eq in Hr. subst b. destruct (a ++ t) eqn:E; [destruct a; [cbn in E; subst; reflexivity|discriminate]|].
+  rewrite <- E in Hk. unfold all_keys. rewrite forallb_app in Hk. apply andb_true_iff in Hk as [_ Hk]. exact Hk.
+Qed.
+
+Lemma non_nested_NK ls : non_nested ls = true -> NK ls.
+Proof.
+  assert (Hpre : forall x y u, rem_prefix x y = Some u -> is_prefix_loc x y = true).
+  { induction x as [|p x IHx]; intros [|q y] u Hu; cbn in *; auto; try discriminate.
+    destruct (part_eqb p q); [|discriminate]. cbn. eauto. }
+  assert (Hself : forall x u, rem_prefix x x = Some u -> u = []).
+  { intros x u Hu. apply rem_prefix_eq in Hu. rewrite <- (app_nil_r x) in Hu at 1. apply app_inv_head in Hu. auto. }
+  induction ls as [|l ls IH]; intros H a b t Ha Hb Hr; [contradiction|].
+  apply non_nested_cons in H as [H1 H2].
+  destruct Ha as [<-|Ha]; destruct Hb as [<-|Hb].
+  - rewrite (Hself _ _ Hr). reflexivity.
+  - destruct (H1 b Hb) as [Hc _]. rewrite (Hpre _ _ _ Hr) in Hc. discriminate.
+  - destruct (H1 a Ha) as [_ Hc]. rewrite (Hpre _ _ _ Hr) in Hc. discriminate.
+  - exact (IH H2 a b t Ha Hb Hr).
+Qed.
+
+(* assigning, inside a copied value, the value that is already there changes nothing *)
+Lemma dict_set_same ms k (x : json) : lookup k ms = Some x -> Patch.dict_set ms k x = ms.
+Proof.
+  induction ms as [|[k' y] ms IH]; cbn; intros H; [discriminate|].
+  destruct (ustr_eqb k k'); [injection H as ->; reflexivity|]. rewrite IH; auto.
+Qed.
+
+Lemma patch_value_same t : forall d x,
+  t <> [] -> all_keys t = true -> node_at d t = Some x -> patch_value t d x = Ok d.
+Proof.
+  induction t as [|p t IH]; intros d x Hne Hk Hn; [contradiction|].
+  cbn [all_keys forallb] in Hk. apply andb_true_iff in Hk as [Hp Hk]. destruct p as [k|i]; [|discriminate].
+  cbn [node_at] in Hn. destruct (step d (PKey k)) as [c|] eqn:Hs; [|discriminate].
+  destruct d as [| | | | |ms]; try discriminate. cbn in Hs.
+  destruct t as [|q t'].
+  - cbn in Hn. injection Hn as <-. cbn. rewrite (dict_set_same _ _ _ Hs). reflexivity.
+  - change (patch_value (PKey k :: q :: t') (JObj ms) x)
+      with (match lookup k ms with
+            | Some c => c' <- patch_value (q :: t') c x ;; Ok (JObj (Patch.dict_set ms k c'))
+            | None => c' <- patch_value (q :: t') (JObj []) x ;; Ok (JObj (Patch.dict_set ms k c'))
+            end).
+    rewrite Hs. rewrite (IH c x); auto; [|discriminate]. cbn [bind]. rewrite (dict_set_same _ _ _ Hs). reflexivity.
+Qed.
+
+Lemma find_empty_app_some g1 g2 y : find_empty g1 = Some y -> find_empty (g1 ++ g2) = Some y.
+Proof.
+  induction g1 as [|[l z] g IH]; cbn [find_empty app]; [discriminate|]. destruct l; auto.
+Qed.
+
+Lemma plocated_incl v g g' : (forall lx, In lx g' -> In lx g) -> plocated v g -> plocated v g'.
+Proof. intros Hi H l x Hin. apply H. apply Hi. exact Hin. Qed.
+
+(* patch_all builds the tree [expected] of ProjectProofs (a part that is selected whole at any
+   time ends up as a leaf), whatever the order of the selections *)
+Lemma patch_all_expected_d n : forall v g,
+  plocated v g -> find_empty g = None -> Forall (fun lx => length (fst lx) <= n) g ->
+  NK (map fst g) ->
+  patch_all g [] = Ok (expected g).
+Proof.
+  induction n as [|n IHn]; intros v g.
+  - intros _ Hne Hlen _. destruct g as [|[l x] g]; [reflexivity|]. exfalso.
+    apply find_empty_none in Hne. apply Forall_cons_iff in Hne as [Hne _].
+    apply Forall_cons_iff in Hlen as [Hlen _]. cbn [fst] in *. destruct l; [congruence|cbn in Hlen; lia].
+  - induction g as [|[l x] g0 IHg] using rev_ind; intros Hloc Hne Hlen Hnk; [reflexivity|].
+    pose proof Hne as Hne'. apply find_empty_none in Hne'. apply Forall_app in Hne' as [Hne0 Hnel].
+    apply Forall_cons_iff in Hnel as [Hnel _]. cbn [fst] in Hnel.
+    apply Forall_app in Hlen as [Hlen0 Hlenl]. apply Forall_cons_iff in Hlenl as [Hlenl _].
+    cbn [fst] in Hlenl.
+    assert (Hloc0 : plocated v g0) by (eapply plocated_incl; [|exact Hloc]; intros lx Hx; apply in_or_app; auto).
+    assert (Hnk0 : NK (map fst g0)).
+    { eapply NK_incl; [|exact Hnk]. intros y Hy. rewrite map_app. apply in_or_app. auto. }
+    assert (Hne0' : find_empty g0 = None) by (apply find_empty_none; exact Hne0).
+    specialize (IHg Hloc0 Hne0' Hlen0 Hnk0).
+    rewrite patch_all_app, IHg. cbn [bind]. rewrite patch_all_single.
+    destruct l as [|p rest]; [congruence|]. clear Hnel.
+    (* the child of v under p *)
+    pose proof (Hloc (p :: rest) x ltac:(apply in_or_app; right; left; reflexivity)) as Hx.
+    cbn [node_at] in Hx. destruct (step v p) as [c|] eqn:Hstep; [|discriminate].
+    assert (Hgrp : forall q, group q (g0 ++ [(p :: rest, x)]) =
+                             group q g0 ++ (if part_eqb q p then [(rest, x)] else [])).
+    { intros q. rewrite group_app, group_single. reflexivity. }
+    assert (Hgq : forall q, q <> p -> group q (g0 ++ [(p :: rest, x)]) = group q g0).
+    { intros q Hq. rewrite Hgrp. apply part_eqb_neq in Hq. rewrite Hq. apply app_nil_r. }
+    (* sub-results from the induction on the depth, in the child c *)
+    assert (Hsub : forall h, (forall r y, In (r, y) h -> In (p :: r, y) (g0 ++ [(p :: rest, x)])) ->
+                             find_empty h = None -> patch_all h [] = Ok (expected h)).
+    { intros h Hin Hfeh. apply (IHn c); auto.
+      - intros r y Hry. specialize (Hloc _ _ (Hin r y Hry)). cbn [node_at] in Hloc. rewrite Hstep in Hloc. exact Hloc.
+      - apply Forall_forall. intros [r y] Hry. cbn [fst]. specialize (Hin r y Hry).
+        assert (Hl : Forall (fun lx => length (fst lx) <= S n) (g0 ++ [(p :: rest, x)])).
+        { apply Forall_app. split; auto. }
+        rewrite Forall_forall in Hl. specialize (Hl _ Hin). cbn in Hl. lia.
+      - intros a b t Ha Hb Hr. apply in_map_iff in Ha as [[a' ya] [Ea Ha]]. apply in_map_iff in Hb as [[b' yb] [Eb Hb]].
+        cbn in Ea, Eb. subst a' b'.
+        apply (Hnk (p :: a) (p :: b) t).
+        + apply in_map_iff. exists (p :: a, ya). split; auto.
+        + apply in_map_iff. exists (p :: b, yb). split; auto.
+        + rewrite rem_prefix_cons. exact Hr. }
+    (* a whole selection of p, whenever it happened, has the value c *)
+    assert (Hwhole : forall y, In ([], y) (group p g0) -> y = c).
+    { intros y Hy. apply in_group in Hy. specialize (Hloc0 _ _ Hy). cbn in Hloc0. rewrite Hstep in Hloc0. congruence. }
+    unfold expected at 2. rewrite first_keys_snoc.
+    destruct rest as [|r1 rest'].
+    + (* the part itself is selected: a leaf, new or overwriting whatever was built under p *)
+      cbn in Hx. injection Hx as ->.
+      cbn [patch_obj].
+      assert (Hslot : slot_of (group p (g0 ++ [([p], x)])) = PLeaf x).
+      { unfold slot_of. rewrite Hgrp, part_eqb_refl.
+        destruct (find_empty (group p g0)) as [y|] eqn:Ef.
+        - rewrite (find_empty_app_some _ _ _ Ef). rewrite (Hwhole y (find_empty_some _ _ Ef)). reflexivity.
+        - rewrite (find_empty_app_none _ _ Ef). reflexivity. }
+      destruct (pmem p (first_keys g0)) eqn:Hm.
+      * unfold expected at 1. apply f_equal.
+        apply pt_set_map_old.
+        -- apply first_keys_NoDup.
+        -- apply pmem_In. exact Hm.
+        -- exact Hslot.
+        -- intros q Hq. rewrite Hgq; auto.
+      * apply pmem_not_In in Hm as Hnew. unfold expected at 1. rewrite pt_set_map_new by exact Hnew.
+        rewrite map_app. cbn [map]. apply f_equal.
+        apply (f_equal2 (@app _)); [|exact (f_equal (fun t => [(p, t)]) (eq_sym Hslot))].
+        apply map_ext_in. intros q Hq. rewrite Hgq; auto. intros ->. contradiction.
+    + (* a longer location *)
+      change (patch_obj (p :: r1 :: rest') (expected g0) x) with
+        (match pt_lookup p (expected g0) with
+         | None => sub <- patch_obj (r1 :: rest') [] x ;; Ok (pt_set (expected g0) p (PNode sub))
+         | Some (PNode ms) => sub <- patch_obj (r1 :: rest') ms x ;; Ok (pt_set (expected g0) p (PNode sub))
+         | Some (PLeaf d) => d' <- patch_value (r1 :: rest') d x ;; Ok (pt_set (expected g0) p (PLeaf d'))
+         end).
+      unfold expected at 1. rewrite pt_lookup_map.
+      destruct (find_empty (group p g0)) as [y|] eqn:Ef.
+      * (* p was selected whole before: the walk enters the copied value and changes nothing *)
+        pose proof (find_empty_some _ _ Ef) as Hy. pose proof (Hwhole y Hy) as ->.
+        assert (Hm : pmem p (first_keys g0) = true).
+        { apply pmem_In. apply in_first_keys. apply in_group in Hy. eauto. }
+        rewrite Hm. unfold slot_of at 1. rewrite Ef.
+        assert (Hkeys : all_keys (r1 :: rest') = true).
+        { apply (Hnk [p] (p :: r1 :: rest')).
+          - apply in_map_iff. exists ([p], c). split; auto. apply in_or_app. left. apply in_group. exact Hy.
+          - apply in_map_iff. exists (p :: r1 :: rest', x). split; auto. apply in_or_app. right. left. reflexivity.
+          - rewrite rem_prefix_cons. reflexivity. }
+        rewrite (patch_value_same (r1 :: rest') c x); auto; [|discriminate]. cbn [bind]. f_equal.
+        unfold expected at 1. apply pt_set_map_old.
+        -- apply first_keys_NoDup.
+        -- apply pmem_In. exact Hm.
+        -- unfold slot_of. rewrite Hgrp, part_eqb_refl, (find_empty_app_some _ _ _ Ef). reflexivity.
+        -- intros q Hq. rewrite Hgq; auto.
+      * (* as in ProjectProofs: walk or create the node under p *)
+        assert (Hp0 : patch_all (group p g0) [] = Ok (expected (group p g0))).
+        { apply Hsub; auto. intros r y Hry. apply in_or_app. left. apply in_group. exact Hry. }
+        assert (Hfe1 : find_empty (group p (g0 ++ [(p :: r1 :: rest', x)])) = None).
+        { rewrite Hgrp, part_eqb_refl. rewrite find_empty_app_none by exact Ef. reflexivity. }
+        assert (Hp1 : patch_all (group p (g0 ++ [(p :: r1 :: rest', x)])) [] =
+                      Ok (expected (group p (g0 ++ [(p :: r1 :: rest', x)])))).
+        { apply Hsub; auto. intros r y Hry. apply in_group. exact Hry. }
+        assert (Hstp : patch_obj (r1 :: rest') (expected (group p g0)) x =
+                        Ok (expected (group p (g0 ++ [(p :: r1 :: rest', x)])))).
+        { rewrite <- Hp1. rewrite Hgrp, part_eqb_refl. rewrite patch_all_app, Hp0. cbn [bind].
+          apply eq_sym, patch_all_single. }
+        assert (Hslot : slot_of (group p (g0 ++ [(p :: r1 :: rest', x)])) =
+                        PNode (expected (group p (g0 ++ [(p :: r1 :: rest', x)])))).
+        { unfold slot_of. rewrite Hfe1, Hp1. reflexivity. }
+        destruct (pmem p (first_keys g0)) eqn:Hm.
+        -- unfold slot_of at 1. rewrite Ef, Hp0. rewrite Hstp. cbn [bind]. f_equal.
+           unfold expected at 1.
+           apply pt_set_map_old.
+           ++ apply first_keys_NoDup.
+           ++ apply pmem_In. exact Hm.
+           ++ exact Hslot.
+           ++ intros q Hq. rewrite Hgq; auto.
+        -- apply pmem_not_In in Hm as Hnew. apply group_nil_iff in Hnew as Hg0.
+           rewrite Hg0 in Hstp. change (expected []) with (@nil (part * ptree)) in Hstp.
+           rewrite Hstp. cbn [bind]. f_equal.
+           unfold expected at 1. rewrite pt_set_map_new by exact Hnew.
+           rewrite map_app. cbn [map].
+           apply (f_equal2 (@app _)); [|exact (f_equal (fun t => [(p, t)]) (eq_sym Hslot))].
+           apply map_ext_in. intros q Hq. rewrite Hgq; auto. intros ->. contradiction.
+Qed.
+
+Lemma slot_of_node_d v g :
+  plocated v g -> find_empty g = None -> NK (map fst g) -> slot_of g = PNode (expected g).
+Proof.
+  intros Hloc Hfe Hnk. unfold slot_of. rewrite Hfe.
+  rewrite (patch_all_expected_d (list_max (map (fun lx => length (fst lx)) g)) v g); auto.
+  apply Forall_forall. intros lx Hin.
+  pose proof (proj1 (list_max_le (map (fun lx => length (fst lx)) g) _) (Nat.le_refl _)) as H.
+  rewrite Forall_forall in H. apply H. apply in_map_iff. exists lx. auto.
+Qed.
+
+Lemma child_facts_d v g p c :
+  wf_json v = true -> plocated v g ->
+  NK (map fst g) -> ascending (map fst g) = true ->
+  In p (first_keys g) -> step v p = Some c ->
+  wf_json c = true /\ plocated c (group p g) /\ group p g <> [] /\
+  NK (map fst (group p g)) /\ ascending (map fst (group p g)) = true.
+Proof.
+  intros Hwf Hloc Hnn Hasc Hin Hs. repeat split.
+  - eapply wf_step; eauto.
+  - eapply plocated_group; eauto.
+  - intros E. apply group_nil_iff in E. contradiction.
+  - rewrite map_fst_group. apply NK_tails. exact Hnn.
+  - rewrite map_fst_group. apply ascending_tails. exact Hasc.
+Qed.
+
+Lemma project_slot_d v : forall g,
+  wf_json v = true -> plocated v g -> g <> [] ->
+  NK (map fst g) -> ascending (map fst g) = true ->
+  exists t, project_tree v (map fst g) = Some t /\ json_eq (fix_sparse (slot_of g)) t = true.
+Proof.
+  induction v as [| b | n | s | xs IH | ms IH] using json_ind'; intros g Hwf Hloc Hne Hnn Hasc.
+  all: destruct (find_empty g) as [x0|] eqn:Hfe.
+  (* a selected node keeps its whole value *)
+  all: try (pose proof (Hloc _ _ (find_empty_some _ _ Hfe)) as Hx; simpl in Hx; injection Hx as <-;
+            eexists; split; [apply project_tree_here; eapply selected_here_some; eauto|];
+            unfold slot_of; rewrite Hfe; cbn [fix_sparse]; apply json_eq_refl; exact Hwf).
+  (* nothing is selected below a scalar *)
+  all: try (exfalso; destruct g as [|[l x] g]; [congruence|]; cbn [find_empty] in Hfe;
+            destruct l as [|p r]; [discriminate|]; specialize (Hloc _ _ (or_introl eq_refl));
+            destruct p; simpl in Hloc; discriminate).
+  - (* array *)
+    rewrite (slot_of_node_d _ g Hloc Hfe Hnn).
+    pose proof (first_keys_nonempty g Hne Hfe) as Hkne.
+    destruct (first_keys_sorted g) as [ks [Ek Hs]]; auto.
+    { intros l x Hin. pose proof (Hloc _ _ Hin) as Hl.
+      apply find_empty_none in Hfe. rewrite Forall_forall in Hfe. specialize (Hfe _ Hin). cbn [fst] in Hfe.
+      destruct l as [|p r]; [congruence|]. destruct p as [k|i]; [simpl in Hl; discriminate|]. eauto. }
+    set (F := fun i => fix_sparse (slot_of (group (PIdx i) g))).
+    assert (HF : Forall2 (fun a b => json_eq a b = true) (map F ks) (kept_arr (map fst g) xs 0)).
+    { apply kept_arr_merge; auto.
+      - intros i Hi. assert (Hin : In (PIdx i) (first_keys g)) by (rewrite Ek; apply in_map; exact Hi).
+        destruct (key_step _ _ _ Hloc Hin) as [c Hc]. simpl in Hc. apply nth_opt_In in Hc. lia.
+      - intros i _ Hi. rewrite <- map_fst_group.
+        assert (Hg : group (PIdx i) g = []); [|rewrite Hg; reflexivity].
+        apply group_nil_iff. rewrite Ek. intros Hin. apply in_map_iff in Hin as [j [Ej Hj]].
+        injection Ej as ->. contradiction.
+      - intros i c Hi Hn. rewrite Nat.sub_0_r in Hn.
+        assert (Hin : In (PIdx i) (first_keys g)) by (rewrite Ek; apply in_map; exact Hi).
+        destruct (child_facts_d _ g (PIdx i) c Hwf Hloc Hnn Hasc Hin Hn) as [Hwc [Hlc [Hgc [Hnc Hac]]]].
+        rewrite Forall_forall in IH. destruct (nth_opt_In _ _ _ Hn) as [Hcin _].
+        destruct (IH c Hcin _ Hwc Hlc Hgc Hnc Hac) as [t [Hp Ht]].
+        rewrite map_fst_group in Hp. split; [|exists t; split; auto].
+        rewrite <- map_fst_group. intros E. apply map_eq_nil in E. contradiction. }
+    rewrite project_tree_arr, (selected_here_none g Hfe).
+    destruct ks as [|k ks']; [rewrite Ek in Hkne; contradiction|].
+    rewrite fix_sparse_node. unfold expected. rewrite Ek. cbn [map]. rewrite !map_map. cbn [snd].
+    inversion HF as [|a b la lb Hab Hrest Ea Eb]. subst.
+    eexists. split; [reflexivity|]. apply json_eq_arr.
+    constructor; auto.
+  - (* object *)
+    rewrite (slot_of_node_d _ g Hloc Hfe Hnn).
+    pose proof (first_keys_nonempty g Hne Hfe) as Hkne.
+    apply wf_obj in Hwf as Hwo. destruct Hwo as [Hkd _]. apply keys_distinct_NoDup in Hkd.
+    assert (Hkeys : forall p, In p (first_keys g) -> exists k c, p = PKey k /\ lookup k ms = Some c).
+    { intros p Hin. destruct (key_step _ _ _ Hloc Hin) as [c Hc].
+      destruct p as [k|i]; simpl in Hc; [eauto|discriminate]. }
+    assert (Hmem : forall k c, In (PKey k) (first_keys g) -> lookup k ms = Some c ->
+                   tails_under (PKey k) (map fst g) <> [] /\
+                   exists t, project_tree c (tails_under (PKey k) (map fst g)) = Some t /\
+                             json_eq (fix_sparse (slot_of (group (PKey k) g))) t = true).
+    { intros k c Hin Hl.
+      destruct (child_facts_d _ g (PKey k) c Hwf Hloc Hnn Hasc Hin Hl) as [Hwc [Hlc [Hgc [Hnc Hac]]]].
+      rewrite Forall_forall in IH. specialize (IH (k, c) (lookup_In _ _ _ Hl)). cbn [snd] in IH.
+      destruct (IH _ Hwc Hlc Hgc Hnc Hac) as [t [Hp Ht]].
+      rewrite map_fst_group in Hp. split; [|exists t; split; auto].
+      rewrite <- map_fst_group. intros E. apply map_eq_nil in E. contradiction. }
+    set (kept := kept_obj (map fst g) ms).
+    assert (Hlen : length (first_keys g) = length kept).
+    { rewrite <- (map_length pname (first_keys g)), <- (map_length fst kept).
+      apply Permutation_length. apply NoDup_Permutation.
+      - apply pname_NoDup; [|apply first_keys_NoDup]. apply Forall_forall. intros p Hin.
+        destruct (Hkeys p Hin) as [k [c [-> _]]]. exact I.
+      - apply kept_obj_NoDup. exact Hkd.
+      - intros k. split.
+        + intros Hin. apply in_map_iff in Hin as [p [<- Hin]].
+          destruct (Hkeys p Hin) as [k' [c [-> Hl]]]. cbn [pname].
+          destruct (Hmem k' c Hin Hl) as [Hne' [t [Hp _]]].
+          eapply lookup_In_fst. eapply kept_obj_lookup; eauto.
+        + intros Hin. apply kept_obj_in in Hin as [_ Hne'].
+          apply in_map_iff. exists (PKey k). split; [reflexivity|].
+          destruct (pmem (PKey k) (first_keys g)) eqn:Hm; [apply pmem_In; exact Hm|].
+          exfalso. apply Hne'. apply pmem_not_In in Hm. apply group_nil_iff in Hm.
+          rewrite <- map_fst_group, Hm. reflexivity. }
+    rewrite project_tree_obj, (selected_here_none g Hfe). fold kept.
+    destruct (first_keys g) as [|p0 keys'] eqn:Ek; [contradiction|].
+    destruct kept as [|kv kept'] eqn:Ekept; [discriminate|]. rewrite <- Ekept in *.
+    eexists. split; [reflexivity|].
+    rewrite fix_sparse_node. unfold expected. rewrite Ek.
+    destruct (Hkeys p0 (or_introl eq_refl)) as [k0 [c0 [-> Hl0]]].
+    cbn [map]. rewrite !map_map. cbn [fst snd].
+    change ((pname (PKey k0), fix_sparse (slot_of (group (PKey k0) g))) ::
+            map (fun x => (pname x, fix_sparse (slot_of (group x g)))) keys')
+      with (map (fun x => (pname x, fix_sparse (slot_of (group x g)))) (PKey k0 :: keys')).
+    apply json_eq_obj.
+    + rewrite map_length. exact Hlen.
+    + apply Forall_forall. intros [k u] Hin. apply in_map_iff in Hin as [p [Ep Hin]].
+      injection Ep as <- <-. cbn [fst snd].
+      destruct (Hkeys p Hin) as [k' [c [-> Hl]]]. cbn [pname].
+      destruct (Hmem k' c Hin Hl) as [Hne' [t [Hp Ht]]].
+      exists t. split; auto. eapply kept_obj_lookup; eauto.
+Qed.
+
+Lemma project_core_d v (g : pairs) :
+  wf_json v = true -> plocated v g ->
+  find_empty g = None -> NK (map fst g) -> ascending (map fst g) = true ->
+  exists obj, patch_all g [] = Ok obj /\
+    match project_tree v (map fst g) with
+    | Some t => json_eq (fix_sparse (PNode obj)) t = true
+    | None => g = [] /\ fix_sparse (PNode obj) = JObj []
+    end.
+Proof.
+  intros Hwf Hloc Hfe Hnn Hasc.
+  pose proof (slot_of_node_d v g Hloc Hfe Hnn) as Hnode.
+  assert (Hp : patch_all g [] = Ok (expected g)).
+  { unfold slot_of in Hnode. rewrite Hfe in Hnode. destruct (patch_all g []) as [o|e] eqn:E.
+    - injection Hnode as ->. reflexivity.
+    - exfalso.
+      rewrite (patch_all_expected_d (list_max (map (fun lx => length (fst lx)) g)) v g) in E; auto; [discriminate|].
+      apply Forall_forall. intros lx Hin.
+      pose proof (proj1 (list_max_le (map (fun lx => length (fst lx)) g) _) (Nat.le_refl _)) as H'.
+      rewrite Forall_forall in H'. apply H'. apply in_map_iff. exists lx. auto. }
+  exists (expected g). split; [exact Hp|].
+  destruct g as [|lx g'] eqn:Eg.
+  - cbn [map]. rewrite project_tree_nil. split; reflexivity.
+  - rewrite <- Eg in *.
+    destruct (project_slot_d v g Hwf Hloc) as [t [Hpt Ht]]; auto; [rewrite Eg; discriminate|].
+    rewrite Hpt. rewrite Hnode in Ht. exact Ht.
+Qed.
+
+(* the widest domain: selections in any order, repeated or nested in one another, provided that
+   below an already selected node only member names follow (and array indices arrive ascending) *)
+Lemma deep_ok_parts ls :
+  selections_deep_ok ls = true -> Forall (fun l => l <> []) ls /\ NK ls /\ ascending ls = true.
+Proof.
+  unfold selections_deep_ok. intros H. apply andb_true_iff in H as [H Ha]. apply andb_true_iff in H as [Hn Hnn].
+  split; [|split; [apply nested_keys_NK; exact Hnn|exact Ha]].
+  apply Forall_forall. intros l Hin. rewrite forallb_forall in Hn. specialize (Hn l Hin). destruct l; discriminate.
+Qed.
+
+Lemma selections_ok_deep_ok ls : selections_ok ls = true -> selections_deep_ok ls = true.
+Proof.
+  unfold selections_ok, selections_deep_ok. intros H. apply andb_true_iff in H as [H Ha].
+  apply andb_true_iff in H as [Hn Hnn]. rewrite Hn, Ha.
+  rewrite (proj2 (nested_keys_NK ls) (non_nested_NK ls Hnn)). reflexivity.
+Qed.
+
+Lemma keys_only_deep_ok ls : keys_only ls = true -> selections_deep_ok ls = true.
+Proof.
+  intros Hk. unfold selections_deep_ok.
+  rewrite (keys_only_ascending _ Hk), (proj2 (nested_keys_NK ls) (keys_only_NK ls Hk)), !andb_true_r.
+  unfold keys_only in Hk. apply forallb_forall. intros l Hin. rewrite forallb_forall in Hk.
+  specialize (Hk l Hin). destruct l; [discriminate|reflexivity].
+Qed.
+
+Theorem relative_deep :
   forall (E : env) rf rs (exprs : list query) (m : jmatch) (sels : list jmatch),
     is_container (m_val m) = true -> wf_json (m_val m) = true ->
     selected E rf rs exprs (m_val m) = Ok sels ->
     located' (m_val m) sels ->
-    keys_only (map m_parts sels) = true -> ancestors_last (map m_parts sels) = true ->
+    selections_deep_ok (map m_parts sels) = true ->
     exists j, select_one E rf rs ProjRelative exprs m = Ok (Some j) /\
       match project_tree (m_val m) (map m_parts sels) with
       | Some t => json_eq j t = true
       | None => sels = [] /\ j = JObj []
       end.
-Proof. intros. apply relative_nested_gen; auto. apply keys_only_nested_ok; auto. Qed.
+Proof.
+  intros E rf rs exprs m sels Hc Hwf Hs Hloc Hok.
+  apply deep_ok_parts in Hok as [Hne [Hnn Hasc]].
+  set (g := map (fun s => (m_parts s, m_val s)) sels : pairs).
+  assert (Hfst : map (@fst loc json) g = map m_parts sels).
+  { unfold g. rewrite map_map. reflexivity. }
+  destruct (project_core_d (m_val m) g) as [obj [Hp Hr]]; auto.
+  - intros l x Hin. apply in_map_iff in Hin as [s [Es Hin]]. injection Es as <- <-. apply Hloc. exact Hin.
+  - apply find_empty_none. apply Forall_forall. intros lx Hin.
+    apply in_map_iff in Hin as [s [<- Hin]]. cbn [fst]. rewrite Forall_forall in Hne. apply Hne.
+    apply in_map. exact Hin.
+  - rewrite Hfst. exact Hnn.
+  - rewrite Hfst. exact Hasc.
+  - exists (fix_sparse (PNode obj)). split.
+    + unfold select_one. rewrite Hc, Hs. cbn [negb bind]. fold g. rewrite Hp. reflexivity.
+    + rewrite Hfst in Hr. destruct (project_tree (m_val m) (map m_parts sels)); auto.
+      destruct Hr as [Hg Hj]. split; auto. unfold g in Hg. destruct sels; [reflexivity|discriminate].
+Qed.
+
+Theorem root_deep :
+  forall (E : env) rf rs (exprs : list query) (d : json) (m : jmatch) (sels : list jmatch),
+    is_container (m_val m) = true -> wf_json d = true ->
+    node_at d (m_parts m) = Some (m_val m) ->
+    selected E rf rs exprs (m_val m) = Ok sels ->
+    located' (m_val m) sels ->
+    selections_deep_ok (map m_parts sels) = true ->
+    exists j, select_one E rf rs ProjRoot exprs m = Ok (Some j) /\
+      match project_root d (m_parts m) (map m_parts sels) with
+      | Some t => json_eq j t = true
+      | None => sels = [] /\ j = JObj []
+      end.
+Proof.
+  intros E rf rs exprs d m sels Hc Hwf Hat Hs Hloc Hok.
+  apply deep_ok_parts in Hok as [Hne [Hnn Hasc]].
+  set (g := map (fun s => (m_parts m ++ m_parts s, m_val s)) sels : pairs).
+  assert (Hfst : map (@fst loc json) g = map (fun l => m_parts m ++ l) (map m_parts sels)).
+  { unfold g. rewrite !map_map. reflexivity. }
+  destruct (project_core_d d g) as [obj [Hp Hr]]; auto.
+  - intros l x Hin. apply in_map_iff in Hin as [s [Es Hin]]. injection Es as <- <-.
+    rewrite node_at_app, Hat. apply Hloc. exact Hin.
+  - apply find_empty_none. apply Forall_forall. intros lx Hin.
+    apply in_map_iff in Hin as [s [<- Hin]]. cbn [fst]. rewrite Forall_forall in Hne.
+    intros E0. apply app_eq_nil in E0 as [_ E0]. revert E0. apply Hne. apply in_map. exact Hin.
+  - rewrite Hfst. apply NK_prefix. exact Hnn.
+  - rewrite Hfst, ascending_prefix. exact Hasc.
+  - exists (fix_sparse (PNode obj)). split.
+    + unfold select_one. rewrite Hc, Hs. cbn [negb bind]. fold g. rewrite Hp. reflexivity.
+    + unfold project_root. rewrite Hfst in Hr.
+      destruct (project_tree d (map (fun l => m_parts m ++ l) (map m_parts sels))); auto.
+      destruct Hr as [Hg Hj]. split; auto. unfold g in Hg. destruct sels; [reflexivity|discriminate].
+Qed.
+
+(* ---- the keys-only statements: nested and repeated selections in ANY order ----------- *)
+
+Theorem relative_nested :
+  forall (E : env) rf rs (exprs : list query) (m : jmatch) (sels : list jmatch),
+    is_container (m_val m) = true -> wf_json (m_val m) = true ->
+    selected E rf rs exprs (m_val m) = Ok sels ->
+    located' (m_val m) sels ->
+    keys_only (map m_parts sels) = true ->
+    exists j, select_one E rf rs ProjRelative exprs m = Ok (Some j) /\
+      match project_tree (m_val m) (map m_parts sels) with
+      | Some t => json_eq j t = true
+      | None => sels = [] /\ j = JObj []
+      end.
+Proof. intros. apply relative_deep; auto. apply keys_only_deep_ok; auto. Qed.
 
 (* the match's own location is unrestricted (it may pass through array indices) *)
 Theorem root_nested :
@@ -494,13 +959,13 @@ Theorem root_nested :
     node_at d (m_parts m) = Some (m_val m) ->
     selected E rf rs exprs (m_val m) = Ok sels ->
     located' (m_val m) sels ->
-    keys_only (map m_parts sels) = true -> ancestors_last (map m_parts sels) = true ->
+    keys_only (map m_parts sels) = true ->
     exists j, select_one E rf rs ProjRoot exprs m = Ok (Some j) /\
       match project_root d (m_parts m) (map m_parts sels) with
       | Some t => json_eq j t = true
       | None => sels = [] /\ j = JObj []
       end.
-Proof. intros. apply root_nested_gen; auto. apply keys_only_nested_ok; auto. Qed.
+Proof. intros. apply root_deep; auto. apply keys_only_deep_ok; auto. Qed.
 
 (* the flat projection does not look at the locations at all *)
 Theorem flat_nested :
@@ -513,23 +978,33 @@ Proof.
   intros E rf rs exprs m sels Hc Hs. split; [apply flat_spec; auto|]. destruct sels; reflexivity.
 Qed.
 
-(* ---- the order the model does not cover --------------------------------------------- *)
+(* ---- examples ------------------------------------------------------------------------- *)
 
-(* a descendant selected AFTER its ancestor was selected whole: _patch_obj walks into the copied
-   value; model/Project.v answers EUnsupported there, while project_tree (and, by the harness, the
-   implementation) keeps the whole value.  Keys-only, located, but not ancestors_last. *)
-Example patch_all_whole_then_descendant :
+(* a descendant selected AFTER its ancestor was selected whole, and the other order: both give the
+   whole value, as project_tree says *)
+Example whole_then_descendant :
   let a := [97%N] in let b := [98%N] in let one := JNum (num_of_Z 1) in
   let v := JObj [(a, JObj [(b, one)])] in
   let sels := [([PKey a], JObj [(b, one)]); ([PKey a; PKey b], one)] in
+  let run g := option_map (fun o => fix_sparse (PNode o)) (match patch_all g [] with Ok o => Some o | Err _ => None end) in
   keys_only (map fst sels) = true /\ ancestors_last (map fst sels) = false /\
-  (forall l x, In (l, x) sels -> node_at v l = Some x) /\
-  patch_all sels [] = Err EUnsupported /\
-  project_tree v (map fst sels) = Some v /\
-  (* the other order is covered *)
-  ancestors_last (map fst (rev sels)) = true /\
-  option_map (fun o => fix_sparse (PNode o)) (match patch_all (rev sels) [] with Ok o => Some o | Err _ => None end) = Some v.
-Proof.
-  cbv zeta. repeat split; try (vm_compute; reflexivity).
-  intros l x [H|[H|[]]]; injection H as <- <-; reflexivity.
-Qed.
+  run sels = Some v /\ run (rev sels) = Some v /\ project_tree v (map fst sels) = Some v.
+Proof. cbv zeta. repeat split; vm_compute; reflexivity. Qed.
+
+(* outside every domain above: an array index below an already selected node.  The model's walk
+   creates a dict inside the copied list and then would add an integer key to it: EUnsupported
+   (the implementation goes on and loses the sibling 9: select("a", "a[0][0]") on
+   {"a": [[1, 9], [2]]} gives {"a": [[1], [2]]}, where project_tree keeps the whole of a). *)
+Example index_below_selected_node :
+  let a := [97%N] in let n z := JNum (num_of_Z z) in
+  let va := JArr [JArr [n 1%Z; n 9%Z]; JArr [n 2%Z]] in
+  let v := JObj [(a, va)] in
+  let sels := [([PKey a], va); ([PKey a; PIdx 0; PIdx 0], n 1%Z)] in
+  selections_deep_ok (map fst sels) = false /\
+  patch_all sels [] = Err EUnsupported /\ project_tree v (map fst sels) = Some v.
+Proof. cbv zeta. repeat split; vm_compute; reflexivity. Qed.
+
+Lemma deep_domains ls :
+  (selections_ok ls = true -> selections_deep_ok ls = true) /\
+  (keys_only ls = true -> selections_deep_ok ls = true).
+Proof. split; [apply selections_ok_deep_ok|apply keys_only_deep_ok]. Qed.
